@@ -106,7 +106,7 @@ def _create(clsname, timeout, redo, start):
 
 def run_case(case):
     """case: {"cls", "timeout", "redo", "start", "steps": [[kind, k], ...]}
-    kind 'a': advance k*0.125 then process(); 'p': process() again; 's': send(new packet).
+    kind 'a': advance k*0.125 then process(); 'p': process() again; 's': send(new packet); 't': transmit(new packet).
     Returns (fails, info)."""
     from ioflo.aio.proto import packeting
     clsname, timeout, redo, start = case["cls"], case["timeout"], case["redo"], float(case["start"])
@@ -184,16 +184,21 @@ def run_case(case):
     for i, (kind, k) in enumerate(case["steps"], 1):
         if m_done:
             break
-        if kind == "s":
+        if kind in ("s", "t"):
+            # a new latest message: through send(), or queued directly with transmit(pkt) ("always last transmitted")
             npkt += 1
             latest = pkt(npkt)
             try:
-                exch.send(latest)
+                if kind == "s":
+                    exch.send(latest)
+                else:
+                    exch.transmit(latest)
+                    info["transmits"] = info.get("transmits", 0) + 1
             except Exception as ex:
-                fails.append(("send-%s@%s" % (type(ex).__name__, _where(ex)), "send raised %r" % (ex,)))
+                fails.append(("send-%s@%s" % (type(ex).__name__, _where(ex)), "%s raised %r" % ("send" if kind == "s" else "transmit", ex)))
                 break
             m_queue.append(latest)
-            if not compare(i, "send"):
+            if not compare(i, "send" if kind == "s" else "transmit"):
                 break
             continue
         if kind == "a":
@@ -228,7 +233,7 @@ def plan(tier):
 # one integer draw per step (cheap for Hypothesis): index into this table
 STEP_TABLE = ([["a", 1]] * 6 + [["a", 2]] * 7 + [["a", 3]] * 2 + [["a", 4]] * 4 + [["a", 6]] * 2 +
               [["a", 0], ["a", 5], ["a", 8], ["a", 12], ["a", 16], ["a", 20]] +
-              [["p", 0]] * 3 + [["s", 0]] * 2)
+              [["p", 0]] * 3 + [["s", 0]] * 2 + [["t", 0]] * 2)
 
 
 def _steps_strategy():
@@ -277,8 +282,10 @@ def work(shard, seed, tier):
                    "redos>=2" if info["redos"] >= 2 else "redos<2"]
         if info["failed"] and info["redos"] >= 2:
             classes.append("redos>=2-then-timeout")
-        if any(s[0] == "s" for s in case["steps"]) and info["redos"] >= 1:
+        if any(s[0] in ("s", "t") for s in case["steps"]) and info["redos"] >= 1:
             classes.append("redo-after-new-message")
+        if info.get("transmits"):
+            classes.append("latest-message-through-transmit")
         return Outcome(fails, nontrivial=info["redos"] >= 2, classes=classes, key=case, sample=case)
 
     campaign(acc, strat, execute, n, seed * 1000 + shard["i"], to_case=to_case,
